@@ -769,12 +769,17 @@ static ares_status_t ares_dns_parse_rr_raw_rr(ares_buf_t    *buf,
   unsigned char *bytes = NULL;
 
   if (rdlength == 0) {
-    return ARES_SUCCESS;
-  }
-
-  status = ares_buf_fetch_bytes_dup(buf, rdlength, ARES_FALSE, &bytes);
-  if (status != ARES_SUCCESS) {
-    return status;
+    /* Empty RDATA is valid.  Store an empty, but set, value so the record
+     * still carries its type and can be written back. */
+    bytes = ares_malloc_zero(1);
+    if (bytes == NULL) {
+      return ARES_ENOMEM;
+    }
+  } else {
+    status = ares_buf_fetch_bytes_dup(buf, rdlength, ARES_FALSE, &bytes);
+    if (status != ARES_SUCCESS) {
+      return status;
+    }
   }
 
   /* Can't fail */
